@@ -9,8 +9,10 @@ OFFERED = {
     "[]int": ["[]int{1, 2}", "aivar"],
     "[]bool": ["[]bool{true}", "abvar"],
     "[]string": ['[]string{"a"}', "asvar"],
-    "none": ["vfn()"],
-    "multi": ["mfn()"],
+    # a call in brackets is an expression of the call's pseudo type, not a call: no value / several values in every position
+    # (also where the bare call is taken: `a, b := (mfn())` is two variables for one expression)
+    "none": ["vfn()", "(vfn())"],
+    "multi": ["mfn()", "(mfn())"],
 }
 ALL = list(OFFERED)
 SINGLE = ["int", "bool", "string", "[]int", "[]bool", "[]string"]
@@ -173,7 +175,7 @@ def table(full=True):
     """yields dict(name, ctx, offered, expr, src, expect) with expect in {True, False, None}"""
     for name, tmpl, ok in POSITIONS:
         for ty in ALL:
-            exprs = OFFERED[ty] if full else OFFERED[ty][:1]
+            exprs = OFFERED[ty] if (full or ty in ("none", "multi")) else OFFERED[ty][:1]
             for e in exprs:
                 if name == "expr-stmt-call" and not e.endswith(")"):
                     continue
@@ -184,6 +186,14 @@ def table(full=True):
                         expect = True if (e.endswith(")") and "fn(" in e) else None
                     else:
                         expect = ty in ok
+                    if e.startswith("(") and ty in ("none", "multi"):
+                        # a bracketed call is not a call: it cannot deliver several values (Go: "multiple-value in single-value
+                        # context") and it has no value when the function returns nothing; where the position takes the first
+                        # value of a multi-value call (print, program call arguments) the bracketed form is left open
+                        if name in ("print-arg", "app-arg", "expr-stmt-call") or (name == "panic-arg" and ty == "multi"):
+                            expect = None
+                        else:
+                            expect = False
                     # copy's first argument must be a variable; second may be any slice expression
                     stmt = tmpl.replace("{X}", e)
                     yield dict(name=name, ctx=ctx, offered=ty, expr=e, src=PRELUDE + wrap(ctx, stmt), expect=expect)
